@@ -249,6 +249,17 @@ class ValueAcc(Adapter):
     return ([r[0] for r in rows], [r[1] for r in rows])
 
 
+class ValueAccPlain(ValueAcc):
+  name = 'ValueAccumulator/default-concatenation'
+
+  def fresh(self):
+    return _rs().ValueAccumulator()
+
+  def result(self, acc):
+    # without a concat_fn a column is the list of the batches it was fed (documented): compared batch boundaries aside
+    return canon(tuple([v for batch in col for v in batch] for col in acc.result()))
+
+
 class ValueAccMetric(ValueAcc):
   name = 'ValueAccumulator/metric_fns'
 
@@ -761,7 +772,7 @@ def all_adapters():
 
 
 def _direct_adapters():
-  return [Mean1D(), Mean2D(), Mean2DMixed(), MeanVar1D(), MeanVar2D(), MeanVar2DMixed(), Var1D(), Hist(), HistEdges(), CounterA(), MinMax(), MinMaxAxis(), ValueAcc(),
+  return [Mean1D(), Mean2D(), Mean2DMixed(), MeanVar1D(), MeanVar2D(), MeanVar2DMixed(), Var1D(), Hist(), HistEdges(), CounterA(), MinMax(), MinMaxAxis(), ValueAcc(), ValueAccPlain(),
           ValueAccMetric(), Unbounded(), UnboundedSingle(), Reservoir(), Reservoir3(), R2(), R2Rel(), RReg(), RRegNC(),
           RRegMulti(), RRegMultiMixed(), SPD(), MeanStateA(), MeanStateArr(), TupleMean(), NGrams(), NGrams2(), NGramsFirst(), Patterns(),
           PatternsNoDup(), CMBinary(), CMBinaryStr(), CMMultiMicro(), CMMultiMicroNoVocab(), CMMultiMacro(), CMMultiOut(), CMIndicator(), CMTopK(),
